@@ -11,6 +11,8 @@ use renoir::verif::{take_ops_keyed, ScriptOp};
 use renoir::{RuntimeConfig, StreamContext};
 
 fn gen(rng: &mut Rng, _i: usize) -> Case {
+    // per-component stream: components run with the same --seed must not draw identical sequences
+    let rng = &mut Rng::new(rng.next() ^ 0x4B12_3A90_0000_0004);
     let name = *rng.pick(FNS);
     let dist = rng.below(3);
     let cfg = ScriptCfg {
